@@ -6,7 +6,7 @@ import random
 
 from .. import tlc, runner, corpus, profiles
 
-C09_INV = ["Axioms", "SumOfGroups", "BracketF", "BracketU", "ChargeRows", "PiLine", "ChargeGrid"]
+C09_INV = ["Axioms", "SumOfGroups", "BracketF", "BracketU", "ChargeRows", "PiLine", "ConfPiLine", "ChargeGrid"]
 C09_DIAG = ["BisectConforms"]
 C10_INV = ["GridExact", "ChargeGrid", "FoldSum", "LinkGroups", "LinkTotal", "Optimum", "Range80", "StabRange",
            "FoldRows", "OptLine"]
